@@ -1656,6 +1656,12 @@ func (interpreter *Interpreter) declareNonEnumCompositeValue(
 				compositeType,
 				constructorGenerator,
 			)
+			// The contract value might not exist (yet),
+			// e.g. when the contract was added in the current transaction,
+			// as the contract value is only written when the transaction is committed.
+			if contractValue == nil {
+				return nil
+			}
 			contractValue.SetNestedVariables(nestedVariables)
 			return contractValue
 		})
